@@ -21,21 +21,21 @@ type Unsupported struct {
 func (u *Unsupported) Error() string { return fmt.Sprintf("UNSUPPORTED(%s at %s)", u.Msg, u.Pos) }
 
 type Interp struct {
-	W       *World
-	D       *Decls
-	global  []Term
-	initial map[*Cell]Val
-	obls    []*Obligation
-	cellN   int
-	assumes map[string]bool // assumptions / trusted items used
-	top     *Frame
-	topKey  string
-	inputs  []InputSym
-	strLits map[string]Term
-	errVars map[string]Term
-	pathCnt int
-	sorts   map[string]bool
-	safetyN map[string]int
+	W        *World
+	D        *Decls
+	global   []Term
+	initial  map[*Cell]Val
+	obls     []*Obligation
+	cellN    int
+	assumes  map[string]bool // assumptions / trusted items used
+	top      *Frame
+	topKey   string
+	inputs   []InputSym
+	strLits  map[string]Term
+	errVars  map[string]Term
+	pathCnt  int
+	sorts    map[string]bool
+	safetyN  map[string]int
 	frozenOf map[*Cell]Term
 	// configuration
 	maxPaths int
@@ -64,6 +64,7 @@ type Frame struct {
 	loopIdx    map[int]*Cell // hidden index cells of range loops by ordinal
 	closures   map[types.Object]*ast.FuncLit
 	ghostCells map[string]*Cell
+	callOrds   map[*ast.CallExpr]int
 }
 
 func NewInterp(w *World) *Interp {
@@ -196,8 +197,14 @@ func (f *Frame) resolve(t types.Type) types.Type {
 // sortOf gives the SMT sort used when a value of Go type t is stored in a
 // container (array element, map key/value, struct-in-container) or passed to
 // an uninterpreted function.
+// isBigInt: math/big.Int is modelled as a mathematical integer (sort Int, no range).
+func isBigInt(t types.Type) bool { return namedName(types.Unalias(t)) == "math/big.Int" }
+
 func (in *Interp) sortOf(t types.Type) string {
 	t = types.Unalias(t)
+	if isBigInt(t) {
+		return SInt
+	}
 	if nn := namedName(t); nn != "" {
 		if in.W.opaqueTypes[nn] {
 			s := "O_" + sanitize(nn)
@@ -333,6 +340,9 @@ func (in *Interp) arrayRangeAxiom(a Term, elem types.Type) {
 // symbols go to the global hypothesis list; they describe entry/havoc values).
 func (in *Interp) freshVal(hint string, t types.Type, f *Frame) Val {
 	t = types.Unalias(f.resolve(t))
+	if isBigInt(t) {
+		return Sc{in.D.fresh(hint, SInt)}
+	}
 	if nn := namedName(t); nn != "" && in.W.opaqueTypes[nn] {
 		return in.freshScalar(hint, t)
 	}
@@ -454,6 +464,9 @@ func (in *Interp) havocCell(st *State, c *Cell, f *Frame) {
 // zeroVal is the Go zero value of t.
 func (in *Interp) zeroVal(t types.Type, f *Frame) Val {
 	t = types.Unalias(f.resolve(t))
+	if isBigInt(t) {
+		return Sc{IntLit(0)}
+	}
 	if nn := namedName(t); nn != "" && in.W.opaqueTypes[nn] {
 		s := in.sortOf(t)
 		in.D.declareOnce("zero:"+s, fmt.Sprintf("(declare-const zero_%s %s)", s, s))
@@ -612,6 +625,9 @@ func (in *Interp) refOf(p PtrV) Term {
 // thaw converts a term of sort sortOf(t) back into a structured value.
 func (in *Interp) thaw(tm Term, t types.Type, f *Frame) Val {
 	t = types.Unalias(f.resolve(t))
+	if isBigInt(t) {
+		return Sc{tm}
+	}
 	if nn := namedName(t); nn != "" && in.W.opaqueTypes[nn] {
 		return Sc{tm}
 	}
